@@ -766,6 +766,7 @@ func checkC14(w *World, r *Report) {
 	r.Undecided = []string{"'every destination ends up with what it would have received, up to one base unit' is numeric; only the structural conditions without which it cannot hold are decided"}
 	r.Rule("C14.success", "P5", "in each pay-out function state.Remains is stored only on the success edge of the bank call, with result #1 of the TruncateDecimal whose result #0 was sent; on the failure edge no field of the state is stored", 9)
 	r.Rule("C14.sweep", "P5,P6,P7", "in each source sweep, evaluated under 'transfer failed' / 'transfer succeeded' (origins restricted to live edges): nothing returned after a failed transfer depends on the coins that were to be moved, everything returned after a successful one contains them; the sweep goes to the main account; leftovers that were cleared from the source's own state reach the returned inflow on every path", 7)
+	r.Rule("C14.retry", "P5", "the end-of-block pay-out over the stored states is on every path of the distributor's block routine (no early return when nothing arrived): leftovers of failed transfers are retried in every block", 2)
 	r.Rule("C14.wrapper", "P4,P6", "every bank transfer or burn in the distributor's block tree sits in a keeper wrapper that passes its amount and account parameters to the bank unchanged and returns the bank's result: callers reason about the amount they passed", 4)
 	r.Rule("C14.persist", "P5", "= C03.persist", 3)
 	r.Rule("C14.noerrorexit", "P5", "= C10.swallow: bank errors in the distributor's block tree are logged and never escalate to a panic or an error return", 5)
@@ -835,6 +836,45 @@ func checkC14(w *World, r *Report) {
 		}
 	}
 	sweepRule(w, r, "C14.sweep")
+	// ---------- C14.retry ----------
+	// what a failed pay-out leaves in a state is retried by the end-of-block pay-out of a later block: that step must
+	// run in every block, whether or not anything new arrived
+	if bb := w.Func("x/cfedistributor.BeginBlocker"); bb != nil {
+		var callBlocks = map[*ssa.BasicBlock]bool{}
+		for _, s := range cg.Sites[bb] {
+			if calleeIs(s, "x/cfedistributor/keeper.Keeper.SendCoinsFromStates") {
+				callBlocks[s.Instr.Block()] = true
+			}
+		}
+		// is a return reachable from the entry without passing a block that makes the call?
+		skipped := false
+		seen := map[*ssa.BasicBlock]bool{}
+		var walk func(b *ssa.BasicBlock)
+		walk = func(b *ssa.BasicBlock) {
+			if seen[b] || callBlocks[b] {
+				return
+			}
+			seen[b] = true
+			if _, isRet := b.Instrs[len(b.Instrs)-1].(*ssa.Return); isRet {
+				skipped = true
+			}
+			for _, sc := range b.Succs {
+				walk(sc)
+			}
+		}
+		walk(bb.Blocks[0])
+		r.Check(len(callBlocks) > 0 && !skipped, "C14.retry", "the pay-out of the states runs in every block", w.Pos(bb.Pos()), "every path of BeginBlocker to its end passes SendCoinsFromStates", "some path of the block routine ends without the end-of-block pay-out (for example when nothing arrived): what a failed transfer left in a state is not retried in such blocks, so it is not made up until new coins happen to arrive")
+		// and it pays out the full current state list
+		for _, s := range cg.Sites[bb] {
+			if calleeIs(s, "x/cfedistributor/keeper.Keeper.SendCoinsFromStates") {
+				a := s.Args()
+				o := w.Tracer().Origins(a[len(a)-1])
+				r.Check(o.HasCall("GetAllStates"), "C14.retry", "the pay-out ranges over the stored states", w.Pos(s.Instr.Pos()), "the list passed originates from GetAllStates", "the end-of-block pay-out is not given the stored states")
+			}
+		}
+	} else {
+		r.Unk("infra.anchor", "x/cfedistributor.BeginBlocker", "", "anchor not found")
+	}
 	wrapperRule(w, r, "C14.wrapper")
 	persistRule(w, r, "C14.persist", a)
 	// ---------- C14.noerrorexit ----------
